@@ -32,7 +32,11 @@ class Model:
                 tuple((f(c), tuple(f(s) for s in st)) for c, st in self.ctx), tuple(tuple(a) for a in self.made))
 
 
+# a caller-owned matrix (an XY shear plus an offset) handed to the public chain_transform(), the same ndarray every time
+SHEAR = ((1.0, 0.25, 0.0, 0.5), (0.0, 1.0, 0.0, -1.0), (0.0, 0.0, 1.0, 0.0), (0.0, 0.0, 0.0, 1.0))
+
 TRANSFORM_OPS = {
+    "transform.chain_transform": lambda a: SHEAR,
     "transform.translate": lambda a: A.translation(a[0], a[1], a[2] if len(a) > 2 else 0.0),
     "transform.rotate": lambda a: A.rotation(a[0], a[1] if len(a) > 1 else "z"),
     "transform.scale": lambda a: A.scale_args(a),
@@ -108,6 +112,8 @@ class C13System:
 
     def fresh(self):
         st = Sut({}, GCodeCore)
+        import numpy
+        st.refs["shear"] = numpy.array(SHEAR, dtype=float)
         st.model = Model()
         st.last_rejected = False
         st.last_exc = None
@@ -185,6 +191,10 @@ class C13System:
             problems.append(("spurious-exception", f"{op} raised {exc!r}"))
         if problems:
             return problems
+        import numpy
+        if not numpy.array_equal(st.refs["shear"], numpy.array(SHEAR)):
+            problems.append(("caller-argument-modified", f"{op}: the matrix the caller handed to chain_transform() was changed in place: {st.refs['shear'].tolist()}"))
+            return problems
         # current mapping
         self._compare(tr, m.cur, "current", problems, op)
         # pivot fixed by rotations and scalings (statement clause, independent of the matrix model)
@@ -254,7 +264,8 @@ TINY = [["transform.translate", [1.0, -2.0, 0.5]], ["transform.scale", [2.0, 0.5
 
 
 # the same pivot set again after a restore / a block brought back another one; rotations and scalings about it
-PIVOT = [["transform.set_pivot", [[1.0, 1.0, 0.0]]], ["transform.rotate", [90.0, "z"]], ["transform.scale", [2.0]]]
+PIVOT = [["transform.set_pivot", [[1.0, 1.0, 0.0]]], ["transform.rotate", [90.0, "z"]], ["transform.scale", [2.0]],
+         ["transform.chain_transform", [["ref", "shear"]]]]
 
 # state names with surrounding blanks / a line break / non-ASCII letters, and a name that only differs from another in case
 ODD_NAMES = {"a": "  fixture left\n", "b": "Ünïcode B "}
